@@ -1,2 +1,446 @@
-//! w_whitelist: world helpers (filled in by the properties that need it).
+//! w_whitelist: the whitelist world shared by C11 and C12.
+//!
+//! One chain, one whitelist contract of the chosen kind, three funded accounts.  All
+//! messages are built as JSON by hand so that every kind is driven by the same code and
+//! an operation a kind does not have is simply a rejected call.  The id <-> string table
+//! is fixed (string order == id order, so `sort_unstable` on names is a sort on ids):
+//!   5          -> "contract0" (the whitelist itself)
+//!   50,51,52   -> "A1", "Bob", "ab"      (rejected by addr_validate: short / uppercase)
+//!   60..=69    -> "adm0" .. "adm9"       (senders; adm0 creates and pays)
+//!   100..=9999 -> "u0100" .. "u9999"     (members)
 #![allow(dead_code, unused_imports)]
+use crate::chain::{self, App};
+use crate::util::*;
+use cosmwasm_std::{coin, Addr, Coin};
+use cw_multi_test::{AppResponse, Executor};
+use serde::{Deserialize, Serialize};
+use serde_json::{json, Value};
+
+pub const GENESIS: u64 = chain::GENESIS_NS;
+pub const SELF_ID: u64 = 5;
+pub const FIRST_VALID: u64 = 60;
+pub const ACCOUNTS: [u64; 3] = [60, 61, 62];
+pub const START_BALANCE: u128 = 1_000_000_000_000_000;
+pub const ROOT_OK: &str = "0123456789abcdef0123456789abcdef0123456789abcdef0123456789abcdef";
+pub const ROOT_BAD: &str = "0123456789abcdef0123456789abcdef0123456789abcdef0123456789abcd";
+
+pub fn name(id: u64) -> String {
+    match id {
+        5 => "contract0".into(),
+        50 => "A1".into(),
+        51 => "Bob".into(),
+        52 => "ab".into(),
+        60..=69 => format!("adm{}", id - 60),
+        100..=9999 => format!("u{:04}", id),
+        _ => format!("zz{:08}", id),
+    }
+}
+pub fn id_of(s: &str) -> u64 {
+    match s {
+        "contract0" => 5,
+        "A1" => 50,
+        "Bob" => 51,
+        "ab" => 52,
+        _ if s.starts_with("adm") => 60 + s[3..].parse::<u64>().unwrap_or(99),
+        _ if s.starts_with('u') => s[1..].parse::<u64>().unwrap_or(0),
+        _ if s.starts_with("zz") => s[2..].parse::<u64>().unwrap_or(0),
+        _ => 0,
+    }
+}
+
+#[derive(Clone, Copy, Debug, Serialize, Deserialize, PartialEq, Eq, PartialOrd, Ord, Hash)]
+pub enum Kind {
+    Plain,
+    Flex,
+    Merkle,
+    Tiered,
+    TieredFlex,
+    Immutable,
+}
+impl Kind {
+    pub fn label(&self) -> &'static str {
+        match self {
+            Kind::Plain => "whitelist",
+            Kind::Flex => "whitelist-flex",
+            Kind::Merkle => "whitelist-merkletree",
+            Kind::Tiered => "tiered-whitelist",
+            Kind::TieredFlex => "tiered-whitelist-flex",
+            Kind::Immutable => "whitelist-immutable",
+        }
+    }
+    pub fn coq(&self) -> &'static str {
+        match self {
+            Kind::Plain => "KPlain",
+            Kind::Flex => "KFlex",
+            Kind::Merkle => "KMerkle",
+            Kind::Tiered => "false",
+            Kind::TieredFlex => "true",
+            Kind::Immutable => "KImm",
+        }
+    }
+    pub fn is_flex(&self) -> bool {
+        matches!(self, Kind::Flex | Kind::TieredFlex)
+    }
+    pub fn is_tiered(&self) -> bool {
+        matches!(self, Kind::Tiered | Kind::TieredFlex)
+    }
+    /// documented capacity
+    pub fn max_members(&self) -> u32 {
+        match self {
+            Kind::Plain | Kind::Flex => 5000,
+            Kind::Tiered | Kind::TieredFlex => 30000,
+            _ => 0,
+        }
+    }
+}
+
+#[derive(Clone, Debug, Serialize, Deserialize, PartialEq, Eq, PartialOrd, Ord)]
+pub struct StageSpec {
+    pub start: u64,
+    pub end: u64,
+    pub pal: u32,
+    /// 0 = ustars, 1 = uother
+    pub denom: u64,
+}
+
+#[derive(Clone, Debug, Serialize, Deserialize, PartialEq, Eq, PartialOrd, Ord)]
+pub struct Init {
+    pub kind: Kind,
+    pub now: u64,
+    pub sender: u64,
+    pub funds: Vec<(String, u128)>,
+    /// plain/flex/immutable: one list; tiered: one list per stage
+    pub members: Vec<Vec<(u64, u32)>>,
+    pub start: u64,
+    pub end: u64,
+    pub pal: u32,
+    pub limit: u32,
+    pub whale: Option<u32>,
+    pub admins: Vec<u64>,
+    pub mutable: bool,
+    pub root_ok: bool,
+    pub stages: Vec<StageSpec>,
+}
+
+#[derive(Clone, Debug, Serialize, Deserialize, PartialEq, Eq, PartialOrd, Ord)]
+pub enum Op {
+    UpdStart(u64),
+    UpdEnd(u64),
+    Add(Vec<(u64, u32)>),
+    Remove(Vec<u64>),
+    UpdPal(u32),
+    Increase(u32),
+    UpdAdmins(Vec<u64>),
+    Freeze,
+    // tiered kinds
+    TAdd { stage: u32, ms: Vec<(u64, u32)> },
+    TRemove { stage: u32, ms: Vec<u64> },
+    AddStage { stage: StageSpec, ms: Vec<(u64, u32)> },
+    RemoveStage(u32),
+    UpdStage { stage: u32, start: Option<u64>, end: Option<u64>, pal: Option<u32> },
+}
+impl Op {
+    pub fn kind_label(&self) -> &'static str {
+        match self {
+            Op::UpdStart(_) => "update_start_time",
+            Op::UpdEnd(_) => "update_end_time",
+            Op::Add(_) | Op::TAdd { .. } => "add_members",
+            Op::Remove(_) | Op::TRemove { .. } => "remove_members",
+            Op::UpdPal(_) => "update_per_address_limit",
+            Op::Increase(_) => "increase_member_limit",
+            Op::UpdAdmins(_) => "update_admins",
+            Op::Freeze => "freeze",
+            Op::AddStage { .. } => "add_stage",
+            Op::RemoveStage(_) => "remove_stage",
+            Op::UpdStage { .. } => "update_stage_config",
+        }
+    }
+}
+
+#[derive(Clone, Debug, Serialize, Deserialize, PartialEq, Eq, PartialOrd, Ord)]
+pub struct Step {
+    pub now: u64,
+    pub sender: u64,
+    pub funds: Vec<(String, u128)>,
+    /// None: only move the clock and look
+    pub op: Option<Op>,
+}
+
+#[derive(Clone, Debug, Serialize, Deserialize, PartialEq, Eq, PartialOrd, Ord)]
+pub struct History {
+    pub init: Init,
+    pub steps: Vec<Step>,
+}
+
+pub fn ts(n: u64) -> Value {
+    Value::String(n.to_string())
+}
+fn price() -> Value {
+    json!({"denom": NATIVE, "amount": "100"})
+}
+fn names(ids: &[u64]) -> Vec<String> {
+    ids.iter().map(|i| name(*i)).collect()
+}
+fn members_json(flex: bool, ms: &[(u64, u32)]) -> Value {
+    if flex {
+        Value::Array(ms.iter().map(|(a, c)| json!({"address": name(*a), "mint_count": c})).collect())
+    } else {
+        Value::Array(ms.iter().map(|(a, _)| Value::String(name(*a))).collect())
+    }
+}
+fn stage_json(flex: bool, i: usize, s: &StageSpec) -> Value {
+    let denom = if s.denom == 0 { NATIVE } else { "uother" };
+    if flex {
+        json!({"name": format!("stage{}", i), "start_time": ts(s.start), "end_time": ts(s.end),
+               "mint_price": {"denom": denom, "amount": "100"}, "mint_count_limit": null})
+    } else {
+        json!({"name": format!("stage{}", i), "start_time": ts(s.start), "end_time": ts(s.end),
+               "mint_price": {"denom": denom, "amount": "100"}, "per_address_limit": s.pal, "mint_count_limit": null})
+    }
+}
+
+pub fn init_json(i: &Init) -> Value {
+    let one = i.members.first().cloned().unwrap_or_default();
+    match i.kind {
+        Kind::Plain => json!({
+            "members": members_json(false, &one), "start_time": ts(i.start), "end_time": ts(i.end),
+            "mint_price": price(), "per_address_limit": i.pal, "member_limit": i.limit,
+            "admins": names(&i.admins), "admins_mutable": i.mutable}),
+        Kind::Flex => json!({
+            "members": members_json(true, &one), "start_time": ts(i.start), "end_time": ts(i.end),
+            "mint_price": price(), "member_limit": i.limit, "whale_cap": i.whale,
+            "admins": names(&i.admins), "admins_mutable": i.mutable}),
+        Kind::Merkle => json!({
+            "merkle_root": if i.root_ok { ROOT_OK } else { ROOT_BAD }, "merkle_tree_uri": null,
+            "start_time": ts(i.start), "end_time": ts(i.end), "mint_price": price(),
+            "per_address_limit": i.pal, "admins": names(&i.admins), "admins_mutable": i.mutable}),
+        Kind::Tiered => json!({
+            "members": i.members.iter().map(|m| members_json(false, m)).collect::<Vec<_>>(),
+            "stages": i.stages.iter().enumerate().map(|(k, s)| stage_json(false, k, s)).collect::<Vec<_>>(),
+            "member_limit": i.limit, "admins": names(&i.admins), "admins_mutable": i.mutable}),
+        Kind::TieredFlex => json!({
+            "members": i.members.iter().map(|m| members_json(true, m)).collect::<Vec<_>>(),
+            "stages": i.stages.iter().enumerate().map(|(k, s)| stage_json(true, k, s)).collect::<Vec<_>>(),
+            "member_limit": i.limit, "whale_cap": i.whale, "admins": names(&i.admins), "admins_mutable": i.mutable}),
+        Kind::Immutable => json!({
+            "addresses": members_json(false, &one), "per_address_limit": i.pal, "mint_discount_bps": null}),
+    }
+}
+
+pub fn op_json(kind: Kind, op: &Op) -> Value {
+    let flex = kind.is_flex();
+    match op {
+        Op::UpdStart(t) => json!({"update_start_time": ts(*t)}),
+        Op::UpdEnd(t) => json!({"update_end_time": ts(*t)}),
+        Op::Add(ms) => json!({"add_members": {"to_add": members_json(flex, ms)}}),
+        Op::Remove(ms) => json!({"remove_members": {"to_remove": names(ms)}}),
+        Op::UpdPal(n) => json!({"update_per_address_limit": n}),
+        Op::Increase(n) => json!({"increase_member_limit": n}),
+        Op::UpdAdmins(l) => json!({"update_admins": {"admins": names(l)}}),
+        Op::Freeze => json!({"freeze": {}}),
+        Op::TAdd { stage, ms } => json!({"add_members": {"to_add": members_json(flex, ms), "stage_id": stage}}),
+        Op::TRemove { stage, ms } => json!({"remove_members": {"to_remove": names(ms), "stage_id": stage}}),
+        Op::AddStage { stage, ms } => json!({"add_stage": {"stage": stage_json(flex, 9, stage), "members": members_json(flex, ms)}}),
+        Op::RemoveStage(k) => json!({"remove_stage": {"stage_id": k}}),
+        Op::UpdStage { stage, start, end, pal } => {
+            let mut m = serde_json::Map::new();
+            m.insert("stage_id".into(), json!(stage));
+            if let Some(s) = start {
+                m.insert("start_time".into(), ts(*s));
+            }
+            if let Some(e) = end {
+                m.insert("end_time".into(), ts(*e));
+            }
+            if let (Some(p), false) = (pal, flex) {
+                m.insert("per_address_limit".into(), json!(p));
+            }
+            json!({ "update_stage_config": Value::Object(m) })
+        }
+    }
+}
+
+pub fn funds_of(v: &[(String, u128)]) -> Vec<Coin> {
+    v.iter().map(|(d, a)| coin(*a, d.clone())).collect()
+}
+
+#[derive(Clone, Debug, PartialEq, Eq, Default)]
+pub struct Ledger {
+    /// balance of the whitelist contract (ustars)
+    pub held: u128,
+    /// balance of the fair-burn pool account
+    pub pool: u128,
+    /// minted minus everything still held by the accounts, the whitelist and the pool:
+    /// what left circulation (cw-multi-test 1.2 without `cosmwasm_1_1` has no supply query)
+    pub burned: u128,
+    /// what the three accounts have paid in total
+    pub paid: u128,
+}
+
+pub struct World {
+    pub app: App,
+    pub kind: Kind,
+    pub code: u64,
+    pub addr: Option<Addr>,
+    pub supply0: u128,
+}
+
+impl World {
+    pub fn new(kind: Kind) -> World {
+        let mut app = chain::new_app();
+        let code = app.store_code(match kind {
+            Kind::Plain => chain::whitelist(),
+            Kind::Flex => chain::whitelist_flex(),
+            Kind::Merkle => chain::whitelist_merkletree(),
+            Kind::Tiered => chain::tiered_whitelist(),
+            Kind::TieredFlex => chain::tiered_whitelist_flex(),
+            Kind::Immutable => chain::whitelist_immutable(),
+        });
+        for a in ACCOUNTS {
+            chain::mint_coins(&mut app, &name(a), START_BALANCE, NATIVE);
+            chain::mint_coins(&mut app, &name(a), START_BALANCE, "uother");
+        }
+        let supply0 = START_BALANCE * ACCOUNTS.len() as u128;
+        World { app, kind, code, addr: None, supply0 }
+    }
+
+    pub fn instantiate(&mut self, i: &Init) -> Result<(), String> {
+        chain::set_time(&mut self.app, i.now);
+        let msg = init_json(i);
+        let funds = funds_of(&i.funds);
+        let sender = Addr::unchecked(name(i.sender));
+        let code = self.code;
+        let app = &mut self.app;
+        let r = catch(|| app.instantiate_contract(code, sender, &msg, &funds, "wl", None));
+        match r {
+            Ok(Ok(a)) => {
+                self.addr = Some(a);
+                Ok(())
+            }
+            Ok(Err(e)) => Err(format!("{:#}", e)),
+            Err(p) => Err(p),
+        }
+    }
+
+    pub fn set_time(&mut self, now: u64) {
+        chain::set_time(&mut self.app, now);
+    }
+
+    pub fn exec(&mut self, s: &Step) -> Result<AppResponse, String> {
+        self.set_time(s.now);
+        let op = s.op.as_ref().expect("exec on a look step");
+        let msg = op_json(self.kind, op);
+        let addr = self.addr.clone().expect("no contract");
+        chain::exec(&mut self.app, &name(s.sender), &addr, &msg, &funds_of(&s.funds))
+    }
+
+    pub fn query(&self, q: &Value) -> Result<Value, String> {
+        let addr = self.addr.clone().expect("no contract");
+        let app = &self.app;
+        match catch(|| app.wrap().query_wasm_smart::<Value>(addr, q)) {
+            Ok(Ok(v)) => Ok(v),
+            Ok(Err(e)) => Err(e.to_string()),
+            Err(p) => Err(p),
+        }
+    }
+
+    pub fn digest(&self) -> String {
+        chain::storage_digest(&self.app, self.addr.as_ref().expect("no contract"))
+    }
+
+    pub fn ledger(&self) -> Ledger {
+        let held = self.addr.as_ref().map(|a| chain::balance(&self.app, a.as_str(), NATIVE)).unwrap_or(0);
+        let pool = chain::balance(&self.app, chain::FAIRBURN_POOL, NATIVE);
+        let have: u128 = ACCOUNTS.iter().map(|a| chain::balance(&self.app, &name(*a), NATIVE)).sum();
+        let burned = self.supply0 - have - held - pool;
+        Ledger { held, pool, burned, paid: START_BALANCE * ACCOUNTS.len() as u128 - have }
+    }
+
+    /// Walk the paginated Members query to its end (page size 7, so that several pages are
+    /// needed); (id, mint_count) with mint_count = 1 for the non-flex kinds.
+    pub fn members_all(&self, stage: Option<u32>) -> Result<Vec<(u64, u32)>, String> {
+        let mut out: Vec<(u64, u32)> = vec![];
+        let mut after: Option<String> = None;
+        loop {
+            let mut q = serde_json::Map::new();
+            q.insert("start_after".into(), json!(after));
+            q.insert("limit".into(), json!(7));
+            if let Some(s) = stage {
+                q.insert("stage_id".into(), json!(s));
+            }
+            let v = self.query(&json!({ "members": Value::Object(q) }))?;
+            let page = v["members"].as_array().cloned().ok_or("members: no array")?;
+            if page.is_empty() {
+                break;
+            }
+            for m in &page {
+                let (n, c) = match m {
+                    Value::String(s) => (s.clone(), 1u32),
+                    o => (o["address"].as_str().unwrap_or("").to_string(), o["mint_count"].as_u64().unwrap_or(0) as u32),
+                };
+                after = Some(n.clone());
+                out.push((id_of(&n), c));
+            }
+            if out.len() > 100_000 {
+                return Err("members: pagination does not end".into());
+            }
+        }
+        Ok(out)
+    }
+}
+
+pub fn u64_of(v: &Value) -> u64 {
+    match v {
+        Value::String(s) => s.parse().unwrap_or(u64::MAX),
+        Value::Number(n) => n.as_u64().unwrap_or(u64::MAX),
+        _ => u64::MAX,
+    }
+}
+
+// ---------- Coq printing shared by C11 / C12 ----------
+pub fn coq_funds(fs: &[(String, u128)]) -> String {
+    let mut d = denom_ids();
+    let _ = d.id("uother");
+    coq_list(&fs.iter().map(|(dn, a)| format!("mkCoin {} {}", d.id(dn), a)).collect::<Vec<_>>())
+}
+pub fn coq_pairs(ms: &[(u64, u32)]) -> String {
+    coq_list(&ms.iter().map(|(a, c)| format!("({}, {})", a, c)).collect::<Vec<_>>())
+}
+pub fn coq_ns(ms: &[u64]) -> String {
+    coq_list(&ms.iter().map(|a| a.to_string()).collect::<Vec<_>>())
+}
+pub fn coq_opt32(o: Option<u32>) -> String {
+    coq_opt_n(o.map(|x| x as u64))
+}
+pub fn coq_env(now: u64, sender: u64, funds: &[(String, u128)]) -> String {
+    format!("(mkEnv {} {} {})", now, sender, coq_funds(funds))
+}
+/// imsg of coq/model/Wl.v (plain, flex, merkle)
+pub fn coq_imsg(i: &Init) -> String {
+    let one = i.members.first().cloned().unwrap_or_default();
+    format!(
+        "(mkImsg {} {} {} {} {} {} {} {} {})",
+        coq_pairs(&one),
+        i.start,
+        i.end,
+        i.pal,
+        i.limit,
+        coq_opt32(i.whale),
+        coq_ns(&i.admins),
+        coq_bool(i.mutable),
+        coq_bool(i.root_ok)
+    )
+}
+/// op of coq/model/Wl.v; the tiered ops have no counterpart there
+pub fn coq_op(op: &Op) -> String {
+    match op {
+        Op::UpdStart(t) => format!("(OUpdStart {})", t),
+        Op::UpdEnd(t) => format!("(OUpdEnd {})", t),
+        Op::Add(ms) => format!("(OAdd {})", coq_pairs(ms)),
+        Op::Remove(ms) => format!("(ORemove {})", coq_ns(ms)),
+        Op::UpdPal(n) => format!("(OUpdPal {})", n),
+        Op::Increase(n) => format!("(OIncrease {})", n),
+        Op::UpdAdmins(l) => format!("(OUpdAdmins {})", coq_ns(l)),
+        Op::Freeze => "OFreeze".to_string(),
+        _ => panic!("tiered op in a plain history"),
+    }
+}
